@@ -14,6 +14,10 @@ pub struct SinkCfg {
 	pub plan: AcceptPlan,
 	pub vectored: bool,
 	pub faults: Vec<SinkFault>,
+	/// the (single, hard) fault hits the first write call of a flush, so nothing of that block reached the sink:
+	/// the history is continued on the healed sink and, if every later call returns Ok, the stream must be the baseline
+	#[serde(default)]
+	pub recover: bool,
 }
 
 #[derive(Clone, Debug, Serialize, Deserialize)]
@@ -84,12 +88,14 @@ fn enumerate_cfgs(spec: &FileSpec, seed: u64, fault_cap: usize, baseline_len: us
 				plan: AcceptPlan::Fixed(k),
 				vectored,
 				faults: vec![],
+				recover: false,
 			});
 		}
 		cfgs.push(SinkCfg {
 			plan: AcceptPlan::Cycle((0..3).map(|_| 1 + rng.usize(40)).collect()),
 			vectored,
 			faults: vec![],
+			recover: false,
 		});
 	}
 	// fault enumeration on two base plans
@@ -98,11 +104,13 @@ fn enumerate_cfgs(spec: &FileSpec, seed: u64, fault_cap: usize, baseline_len: us
 			plan: AcceptPlan::All,
 			vectored: rng.bool(),
 			faults: vec![],
+			recover: false,
 		},
 		SinkCfg {
 			plan: AcceptPlan::Fixed(*rng.pick(&[3usize, 7, 16, 19])),
 			vectored: rng.bool(),
 			faults: vec![],
+			recover: false,
 		},
 	];
 	for base in bases {
@@ -160,6 +168,24 @@ fn enumerate_cfgs(spec: &FileSpec, seed: u64, fault_cap: usize, baseline_len: us
 			});
 		}
 	}
+	// clean failures: with an accept-everything vectored sink every call after the header is the first (and only)
+	// write of a block flush; failing it leaves nothing of that block in the sink
+	let dry = run_with(
+		spec,
+		&SinkCfg { plan: AcceptPlan::All, vectored: true, faults: vec![], recover: false },
+		baseline_len,
+		false,
+	);
+	for i in 1..dry.calls.min(24) {
+		for kind in [SinkFaultKind::Hard(IoErrKind::Other), SinkFaultKind::Zero] {
+			cfgs.push(SinkCfg {
+				plan: AcceptPlan::All,
+				vectored: true,
+				faults: vec![SinkFault { at_call: i, kind }],
+				recover: true,
+			});
+		}
+	}
 	cfgs
 }
 
@@ -206,11 +232,11 @@ impl Prop for C16 {
 		]
 	}
 	fn expected_probes(&self) -> Vec<&'static str> {
-		vec!["fault_hard_error_fired", "fault_interrupted_fired", "fault_zero_accept_fired", "sink_partial_accepts", "sink_partial_accept_across_vectored_slices"]
+		vec!["fault_hard_error_fired", "fault_interrupted_fired", "fault_zero_accept_fired", "sink_partial_accepts", "sink_partial_accept_across_vectored_slices", "clean_sink_failure_then_history_continued"]
 	}
 	fn budget(&self, tier: Tier) -> (u64, u64) {
 		match tier {
-			Tier::Quick => (5_000, 90),
+			Tier::Quick => (4_000, 90),
 			Tier::Thorough => (150_000, 1200),
 		}
 	}
@@ -252,6 +278,7 @@ impl Prop for C16 {
 			plan: AcceptPlan::All,
 			vectored: true,
 			faults: vec![],
+			recover: false,
 		};
 		let base = run_with(spec, &base_cfg, 1 << 20, false);
 		out.evals += 1;
@@ -279,7 +306,7 @@ impl Prop for C16 {
 		digest.bytes(b);
 		for cfg in &cfgs {
 			let hard = cfg.faults.iter().find(|f| !matches!(f.kind, SinkFaultKind::Interrupted)).copied();
-			let r = run_with(spec, cfg, b.len(), true);
+			let r = run_with(spec, cfg, b.len(), !cfg.recover);
 			out.evals += 1;
 			out.steps += r.calls;
 			digest.u64(r.digest);
@@ -386,6 +413,23 @@ impl Prop for C16 {
 						);
 						break;
 					}
+					// (serialize_all stops at the item during which the sink failed: the remaining items are never
+					// attempted, so the baseline is not the reference for that op)
+					if cfg.recover && op != "serialize-all" && r.stats.len_at_first_hard_fault.map_or(false, |l| l >= header_len) {
+						out.count("clean_sink_failure_then_history_continued", 1);
+						let later = &r.steps[i + 1..];
+						if !later.is_empty() && later.iter().all(|s| s.res.is_ok()) && r.accepted != *b {
+							out.fail(
+								"C16:stream-corrupted-after-clean-sink-failure",
+								format!(
+									"{label}: step {i} ({op}) reported the sink error (nothing of that block had been accepted), every later call returned Ok, yet the sink ends up with {} bytes that differ from the baseline's {}",
+									r.accepted.len(),
+									b.len()
+								),
+							);
+							break;
+						}
+					}
 					// what the sink held when the fault fired (a consumed writer's Drop may retry its flush afterwards)
 					let upto = r.stats.len_at_first_hard_fault.unwrap_or(r.accepted.len()).min(r.accepted.len());
 					if !b.starts_with(&r.accepted[..upto]) {
@@ -409,6 +453,7 @@ impl Prop for C16 {
 				plan: AcceptPlan::All,
 				vectored: true,
 				faults: vec![],
+				recover: false,
 			};
 			let base = run_with(&scn.spec, &base_cfg, 1 << 20, false);
 			for cfg in enumerate_cfgs(&scn.spec, *seed, *fault_cap, base.accepted.len()) {
